@@ -83,6 +83,32 @@ Definition get_or_init_wf (f : fn_def) : bool :=
 Lemma get_or_init_delegates : get_or_init_wf OnceInitCell_get_or_init = true.
 Proof. vm_compute. reflexivity. Qed.
 
+(* the two constructors agree with the once state: `new` = empty OnceCell + seed arm, `with_value` =
+   set OnceCell + value arm; get_unchecked reads the value arm; drop_cold only drops its argument;
+   the Compound impl wraps the loaded seed with `new` *)
+Definition ctor_wf (f : fn_def) (once_ctor arm : string) : bool :=
+  match fn_body f with
+  | [EStruct ["Self"] [("once", ECall (EPath ["OnceCell"; oc]) _);
+                       ("data", ECall (EPath ["UnsafeCell"; "new"]) [EStruct ["State"] [(a, ECall (EPath ["ManuallyDrop"; "new"]) [EPath ["value"]])]])]] =>
+    String.eqb oc once_ctor && String.eqb a arm
+  | _ => false
+  end.
+Definition get_unchecked_wf (f : fn_def) : bool :=
+  match fn_body f with
+  | [ERef (EField (EUnary "*" (EMethod (EField (EPath ["self"]) "data") "get" [])) "init")] => true
+  | _ => false
+  end.
+Definition load_wraps_new (f : fn_def) : bool :=
+  match fn_body f with
+  | [ECall (EPath ["Ok"]) [ECall (EPath ["OnceInitCell"; "new"]) [ETry (ECall (EPath ["U"; "load"]) [EPath ["cache"]; EPath ["id"]])]]] => true
+  | _ => false
+  end.
+Lemma cell_constructors_agree_with_the_once_state :
+  ctor_wf OnceInitCell_new "new" "uninit" = true /\ ctor_wf OnceInitCell_with_value "with_value" "init" = true /\
+  get_unchecked_wf OnceInitCell_get_unchecked = true /\ fn_body drop_cold = [] /\
+  load_wraps_new OnceInitCell_load = true.
+Proof. vm_compute. repeat split. Qed.
+
 Lemma cell_as_modelled :
   get_wf OnceInitCell_get = true /\ dispatch_wf OnceInitCell_get_or_try_init = true /\
   default_wf OnceInitCell_default = true /\ no_drop_wf OnceInitCell_no_drop = true /\
